@@ -13,7 +13,8 @@ for d in sorted(glob.glob(os.path.join(H, "seeded", "*"))):
     mp = os.path.join(d, "meta.json")
     m = json.load(open(mp))
     out = subprocess.run([os.path.join(H, "tools", "seed_eval.sh"), os.path.join(d, "patch.diff"), "quick"] + m["breaks_property"],
-                         capture_output=True, text=True).stdout
+                         capture_output=True, text=True,
+                         env=dict(os.environ, **({"SEED_BASE": m["base_commit"]} if m.get("base_commit") else {}))).stdout
     res = {}
     cur = None
     for l in out.splitlines():
@@ -26,7 +27,8 @@ for d in sorted(glob.glob(os.path.join(H, "seeded", "*"))):
             res[cur]["keys"].append(mm.group(1))
     m["detected_now"] = res
     json.dump(m, open(mp, "w"), indent=1)
-    caught = any(v["verdict"] == "violated" for v in res.values())
+    bk = m.get("base_keys", {})
+    caught = any(v["verdict"] == "violated" and set(v["keys"]) - set(bk.get(k, [])) for k, v in res.items())
     tot += 1
     miss += (not caught)
     print("%-50s %s" % (name, "; ".join("%s:%s[%s]" % (k, v["verdict"], ",".join(v["keys"][:3])) for k, v in res.items())), flush=True)
